@@ -25,7 +25,7 @@ NAME = "rank"
 DRIVER_SRCS = ["rank_driver.cpp"]
 MODEL_FAMILY = "rank"
 PIPE = True
-BUDGET = {"quick": 300, "thorough": 5000}
+BUDGET = {"quick": 300, "thorough": 4000}
 
 PROP_KINDS = {
     "C01": {"order", "dep_order", "verdict", "push_prefix", "perm", "edges"},
